@@ -47,3 +47,26 @@ impl Cached {
         self.meta.size == current_meta.size
     }
 }
+
+/// expiry stamp: seeded positive (re-stamping existing entries)
+pub struct Timed {
+    pub value: Vec<u8>,
+    pub expires: Option<std::time::Instant>,
+}
+pub struct TimedCache {
+    pub m: HashMap<String, Timed>,
+    pub ttl: Option<std::time::Duration>,
+}
+impl TimedCache {
+    pub fn put(&mut self, k: String, value: Vec<u8>, now: std::time::Instant) {
+        let expires = self.ttl.map(|t| now + t);
+        self.m.insert(k, Timed { value, expires });
+    }
+    /// seeded: the TTL clock of entries already cached is restarted
+    pub fn update_ttl(&mut self, ttl: std::time::Duration, now: std::time::Instant) {
+        self.ttl = Some(ttl);
+        for e in self.m.values_mut() {
+            e.expires = Some(now + ttl);
+        }
+    }
+}
